@@ -89,6 +89,7 @@ def collect(pid, results, group_of, fn_filter=None):
                     m["proven"] += o["proven"]
                     m["failed"] += o["failed"]
                     m["visits"] += o["visits"]
+                    m["fail_callers"] = sorted(set(m.get("fail_callers", [])) | set(o.get("fail_callers", [])))
                     if not m["detail"]:
                         m["detail"] = o["detail"]
     return out, errors
@@ -107,6 +108,22 @@ def shape_key(k):
     snip = " | ".join(parts[2:])
     snip = re.sub(r"[A-Za-z_][A-Za-z0-9_]*", lambda m: m.group(0) if (m.group(0) in _KEEP_WORDS or m.group(0)[0].isupper()) else "_", snip)
     return " | ".join(parts[:2] + [snip])
+
+
+def _matched(nk, audit):
+    return nk in audit or any(wk.endswith("*") and nk.startswith(wk[:-1]) for wk in audit)
+
+
+def _orphan(wk, F_, kind_, d):
+    """audited key `wk` belongs to function F_ and kind kind_ and matches no obligation of the group `d`"""
+    wp = wk.split(" | ")
+    if len(wp) < 2 or wp[1] != kind_ or wp[0].replace("<F>", "") != F_.replace("<F>", ""):
+        return False
+    for kk in d:
+        nk = norm_key(kk)
+        if nk == wk or (wk.endswith("*") and nk.startswith(wk[:-1])):
+            return False
+    return True
 
 
 def to_obs(pid, grouped, audit, side_envs, rule_of):
@@ -147,11 +164,33 @@ def to_obs(pid, grouped, audit, side_envs, rule_of):
                 alts = [(wk, es) for wk, es in shape_audit.get(sk, []) if wk not in d and not any(norm_key(kk) == wk for kk in d)]
                 if len(alts) == 1 and len(failing_shapes.get(sk, [])) == 1:
                     cands.extend(alts[0][1])
+            moved_from = None
+            if not cands:
+                # extracted helper.  Accepted only when ALL of these hold (anything else stays a violation):
+                #  - the obligation's function H has no audited entry of its own (it is not a function the table knows);
+                #  - every failing visit was reached from ONE library function F;
+                #  - F has audited entries of the same obligation kind that match nothing in this group any more (the audited
+                #    operation left F), all with one and the same reason;
+                #  - H has no more such failing obligations of that kind than F lost entries.
+                fcs = o.get("fail_callers", [])
+                nkp = norm_key(k).split(" | ")
+                if len(fcs) == 1 and fcs[0] and len(nkp) >= 2:
+                    F_, H_, kind_ = fcs[0], nkp[0], nkp[1]
+                    h_known = any(wk.split(" | ")[0].replace("<F>", "") == H_.replace("<F>", "") for wk in audit)
+                    lost = [es for wk, es in audit.items() if _orphan(wk, F_, kind_, d)]
+                    n_h = sum(1 for kk, oo in d.items() if oo["failed"] and norm_key(kk).split(" | ")[:2] == [H_, kind_]
+                              and not _matched(norm_key(kk), audit))
+                    reasons = set(e["reason"] for es in lost for e in es)
+                    if not h_known and lost and len(reasons) == 1 and n_h <= len(lost):
+                        cands.extend(lost[0][:1])
+                        moved_from = F_
             ents = [e for e in cands if pid in e.get("props", [pid]) and (not e.get("only") or e["only"] in g)]
             if ents:
                 e = ents[0]
                 ok = True
                 why = "AUDITED: " + e["reason"]
+                if moved_from:
+                    why = "AUDITED (operation moved out of %s, whose entry of this kind no longer matches there): %s" % (moved_from, e["reason"])
                 if e.get("side"):
                     try:
                         ok = eval_side(e["side"], side_envs[g])
